@@ -34,7 +34,9 @@ import (
 )
 
 var rec = tr.New()
-var oneWayDone sync.WaitGroup
+// one-way calls issued and not yet seen by the implementation (a plain counter: an implementation that is shown another
+// call's status must not crash the harness -- the trace says what happened)
+var oneWayPending int64
 var writtenRound, twoWayRound int64 // replies seen by the server hook / two-way calls issued in this round
 
 func cstr(v interface{}) string {
@@ -103,7 +105,7 @@ func (h *impl) do(ctx context.Context, fn string, ins []interface{}, ret interfa
 	}
 	rec.Emit("Impl", "c", c, "got", sentString(fn, inv, rctx, rstatus))
 	if rstatus["vkind"] == "oneway" {
-		defer oneWayDone.Done()
+		defer atomic.AddInt64(&oneWayPending, -1)
 	}
 	rng := rand.New(rand.NewSource(h.seed*7919 + int64(c)))
 	if fn == "fail" || rng.Intn(12) == 0 {
@@ -314,7 +316,7 @@ func doCall(proxy *Vc.Call, rng *rand.Rand, c int, fn string, oneway bool) {
 	}
 	args = append(args, reflect.ValueOf(ctxMap), reflect.ValueOf(status))
 	if oneway {
-		oneWayDone.Add(1)
+		atomic.AddInt64(&oneWayPending, 1)
 	} else {
 		atomic.AddInt64(&twoWayRound, 1)
 	}
@@ -330,7 +332,7 @@ func doCall(proxy *Vc.Call, rng *rand.Rand, c int, fn string, oneway bool) {
 	case err != nil:
 		rec.Emit("CallEnd", "c", c, "ok", false, "v", errString(err))
 		if oneway {
-			oneWayDone.Done()
+			atomic.AddInt64(&oneWayPending, -1)
 		}
 	default:
 		var ret reflect.Value
@@ -357,6 +359,10 @@ func main() {
 	portFlag := flag.Int("port", 0, "serve mode: port")
 	nHostile := flag.Int("hostile", 600, "hostile mode: inputs per entry point")
 	flag.Parse()
+	if *mode == "clientvictim" {
+		clientVictimMain(*portFlag, *seed)
+		os.Exit(0)
+	}
 	if *mode == "hostile" {
 		if err := hostileMain(*seed, *nHostile, *out); err != nil {
 			fmt.Fprintln(os.Stderr, "calldrive hostile:", err)
@@ -471,12 +477,10 @@ func main() {
 			}(g)
 		}
 		wg.Wait()
-		done := make(chan struct{})
-		go func() { oneWayDone.Wait(); close(done) }()
-		select {
-		case <-done:
-		case <-time.After(3 * time.Second): // a lost one-way call: its Impl event is missing and the run is rejected at Reset
+		for i := 0; i < 3000 && atomic.LoadInt64(&oneWayPending) > 0; i++ { // a lost one-way call: its Impl event is missing and the run is rejected at Reset
+			time.Sleep(time.Millisecond)
 		}
+		atomic.StoreInt64(&oneWayPending, 0)
 		// the hook after conn.Write may still be on its way for the last replies: wait for it before closing the round
 		for i := 0; i < 500 && atomic.LoadInt64(&writtenRound) < atomic.LoadInt64(&twoWayRound); i++ {
 			time.Sleep(time.Millisecond)
